@@ -611,7 +611,7 @@ def vary_nonidentity(m: G.Mol, rng) -> G.Mol:
             a["chg"] = rng.choice([-2, -1, 1, 2])
         else:
             a.pop("chg", None)
-    m2.bonds = [(a, b, rng.choice([1, 2, 3, 4])) for a, b, _ in m2.bonds]
+    m2.bonds = [(a, b, rng.choice(G.BOND_TYPES)) for a, b, _ in m2.bonds]
     return m2
 
 
@@ -1260,11 +1260,11 @@ def work_C12(run, rng, budget):
         if err is not None or P.show_graph(c2) != P.show_graph(c):
             run.fail("repeated-canonicalize-differs", "second call on the same object differs", {"mol": mol_repr(m)})
         cc = c.copy()
-        chem_before = P.normalise_graph_dump(P.show_graph(cc)).replace(",explored=F", "").replace("explored=F,", "").replace("explored=F", "")
+        chem_before = P.strip_scratch(P.normalise_graph_dump(P.show_graph(cc)))
         line, real, sinfo = R.op_serialize(cc)
         run.corr(line, real, "observable")
         s1 = sinfo.get("string")
-        chem_after = P.normalise_graph_dump(P.show_graph(cc)).replace(",explored=F", "").replace("explored=F,", "").replace("explored=F", "")
+        chem_after = P.strip_scratch(P.normalise_graph_dump(P.show_graph(cc)))
         if chem_before != chem_after:
             run.fail("serialize-alters-its-argument", "a chemically meaningful attribute changed", {"mol": mol_repr(m)})
         hist = [s1]
@@ -1360,6 +1360,7 @@ def big_families(budget):
     fams.append(("isolated3000", 3000, [], None))
     fams.append(("components1000", 2000, [(2 * i, 2 * i + 1) for i in range(1000)], None))
     fams.append(("K40", 40, G.sk_complete(40), None))
+    fams.append(("all118elements", 118, G.sk_path(118), list(G.ELEMENTS)))
     # further shapes: a hub with thousands of leaves, a deep binary tree, a square grid, a complete bipartite graph,
     # hundreds of identical rings
     k = 2000 if quick else 5000
